@@ -366,7 +366,7 @@ def run_A(case, tape, clear_on_mutation=False):
                     def mut(p, is_cached, fd=fd):
                         old = p[fn_out[op2["fn"]]]
                         fn = Fn(fd["name"], fd["params"], defaults=fd.get("sig_defaults") or None, n_out=len(fd["outputs"]),
-                                tag=op2["tag"])
+                                tag=op2["tag"], none_mod=fd.get("none_mod", 0))
                         new = PipeFunc(fn, fn_out[op2["fn"]], defaults=dict(old._defaults) or None, bound=dict(old._bound) or None,
                                        cache=is_cached and fd["name"] in case["cached"])
                         p.replace(new)
